@@ -219,9 +219,15 @@ def stepLine (_ : Unit) (line : String) : Unit × String :=
     -- sequential specification says about that fixed program
     ((), "premain lock=2,1,0,1,0 save=1 fut=77 wq=0 q=7,1 ev=1,1,1,0 sem=0,1")
   | ["k", "consts"] =>
-    -- constants the model embeds: initial value of safe_queue's semaphore (`init.sem`),
-    -- the lock count / saved count are C `int` (4 bytes, signed), `future` is an intptr_t
-    ((), s!"consts sem0={(init (fun _ => []) []).sem} counter=4 savecount=4 future=8 signed=1")
+    -- what the property fixes of the constants the model embeds: a fresh safe_queue's semaphore is free
+    -- (`init.sem` ≥ 1: the first operation goes through).  Round 3b: the widths of the private counters and the
+    -- exact initial value read through a layout mirror are internals of the library: tags of the harness line,
+    -- not compared (before: `counter=4 savecount=4 future=8 signed=1`)
+    ((), s!"consts sem0={if 0 < (init (fun _ => []) []).sem then 1 else 0}")
+  | "x" :: _ =>
+    -- round 3b: a case whose programs need a hook point the compiled library does not have (renamed / removed):
+    -- the harness runs it oracle-only (tag `point-absent`), nothing is compared
+    ((), "oracle-only")
   | _ => ((), "bad-op")
 
 end Igris.C20.Drv
